@@ -14,7 +14,7 @@ ROUND = {
 W = 'var:w=repeat{0}'
 J16, J68 = 'each(Range::Range{0, 16})', 'each(Range::Range{16, 68})'
 EXPAND = 'BitXor(BitXor(p1(BitXor(BitXor(%s[SubWithOverflow(@J@, 16).0], %s[SubWithOverflow(@J@, 9).0]), rotate_left(%s[SubWithOverflow(@J@, 3).0], 15))), rotate_left(%s[SubWithOverflow(@J@, 13).0], 7)), %s[SubWithOverflow(@J@, 6).0])'.replace('@J@', J68) % (W, W, W, W, W)
-LOAD = 'BitOr(BitOr(BitOr(Shl(from($b_i[MulWithOverflow(@J@, 4).0]), 24), Shl(from($b_i[AddWithOverflow(MulWithOverflow(@J@, 4).0, 1).0]), 16)), Shl(from($b_i[AddWithOverflow(MulWithOverflow(@J@, 4).0, 2).0]), 8)), from($b_i[AddWithOverflow(MulWithOverflow(@J@, 4).0, 3).0]))'.replace('@J@', J16)
+LOAD = 'BitOr(BitOr(BitOr(Shl(($b_i[MulWithOverflow(@J@, 4).0] as u32), 24), Shl(($b_i[AddWithOverflow(MulWithOverflow(@J@, 4).0, 1).0] as u32), 16)), Shl(($b_i[AddWithOverflow(MulWithOverflow(@J@, 4).0, 2).0] as u32), 8)), ($b_i[AddWithOverflow(MulWithOverflow(@J@, 4).0, 3).0] as u32))'.replace('@J@', J16)
 BOOL = {
     'ff': ('BitXor(BitXor($x, $y), $z)', 'BitOr(BitOr(BitAnd($x, $y), BitAnd($x, $z)), BitAnd($y, $z))'),
     'gg': ('BitXor(BitXor($x, $y), $z)', 'BitOr(BitAnd($x, $y), BitAnd(Not($x), $z))'),
